@@ -1,10 +1,14 @@
 import Std.Data.HashMap
 import Driver.Util
+import Driver.C03
 import Driver.C16
 import Driver.Smb
 open Driver
 
-def allEntries : List Entry := Driver.C16.entries ++ Driver.Smb.entries
+def allEntries : List Entry :=
+  Driver.C03.entries
+  ++ Driver.C16.entries
+  ++ Driver.Smb.entries
 
 def table : Std.HashMap String Handler :=
   allEntries.foldl (fun m e => m.insert (e.kind ++ " " ++ e.op) e.run) {}
